@@ -26,6 +26,15 @@ OBLIGATIONS = [
     "KafVerif.C11.nonflex_string_roundtrip",
     "KafVerif.C11.nonflex_string_overflow_rejected",
     "KafVerif.C11.nonflex_string_65535_reads_null",
+    "KafVerif.C11.produce_contract",
+    "KafVerif.C11.handleOutcome_answers",
+    "KafVerif.C11.reply_stream",
+    "KafVerif.C11.broker_reply_stream",
+    "KafVerif.C11.replyFrame_corr",
+    "KafVerif.C11.reply_stream_aligned",
+    "KafVerif.C11.acks0_error_desynchronises",
+    "KafVerif.C11.noreply_only_acks0_produce",
+    "KafVerif.C11.acks0_guard_returns_nothing",
 ]
 BUILDS = {
     "b": ("root", "./cmd/broker", ["C10", "C11"]),
@@ -37,7 +46,9 @@ LEVEL_TEXT = ("Lean obligations over tables REGENERATED from the current source 
               "go/ast from handler.Handle, kmsg max/flexible versions): every advertised (key, version) has a dispatch arm, "
               "passes every handler version guard and is known to kmsg; proxy ranges lie inside broker ranges; response header "
               "is 5 bytes iff flexible and key != ApiVersions and carries the correlation id; the proxy's SkipResponseHeader never "
-              "panics and inverts that header (any well-formed tagged-field section) for every key but ApiVersions.  Byte-level decodability is "
+              "panics and inverts that header (any well-formed tagged-field section) for every key but ApiVersions; the reply stream of a "
+              "connection is one frame per reply-expecting request, in order (reply_stream: serve = filterMap; an acks=0 produce is never "
+              "answered; source facts: the only `return nil, nil` is inside `if req.Acks == 0` of the Produce arm and nothing else is returned there).  Byte-level decodability is "
               "validated exhaustively over the finite (key, version) space with generated bodies through the real handler and "
               "the real proxy connection loop.")
 LEVEL_NOTE = "partial: the theorems cover the tables and the header rule; decodability of response bodies is validated (exhaustive over (key, version), generated bodies), kmsg being the codec"
@@ -47,6 +58,9 @@ ASSUMPTIONS = [
     "ApiVersions requests above the supported maximum are answered in the v0 format with UNSUPPORTED_VERSION (KIP-511); accepted as decodable",
     "generated bodies keep partition indexes in 0..3 and ListOffsets MaxNumOffsets <= 16 (handler allocation/creation by request is out of scope, see notes)",
     "the go/ast extractor recognises version guards of the form `if header.APIVersion </> LIT {... return nil, err}` in Handle and in handle* callees",
+    "the go/ast extractor classifies two-result `return` statements of Handle's arms (one level into h.handle*) as nil,nil / nil,err / value and "
+    "recognises the fire-and-forget guard as `if <x>.Acks == 0 { ... }`; the connection loop (server.go: payload -> frame, nil,nil -> nothing, "
+    "error -> error frame, continue) is modelled by hand (ApiTable.framesFor) and tied by the pipelined run + the `stream` correspondence op",
 ]
 N_BOUNDARY_NAMES = 11      # = len(verifC11BoundaryNames) in harness/C11/root/cmd/broker/zz_verif_c11.go
 GEN = os.path.join(lib.LEAN, "KafVerif", "Gen", "C11Tables.lean")
@@ -110,7 +124,22 @@ def generate(ck):
                         elif e["op"] == ">=":
                             hi = min(hi, lit - 1)
                 guards.append((k, lo, hi))
-    ck._c11.update(rows=rows, names=names, served=served, guards=guards)
+    # what each arm hands back to the connection loop (two-result returns, following h.handle* one level): a `return nil, nil` makes
+    # the loop write NOTHING; the only place allowed to do that is the acks=0 tail of the Produce arm, and inside that guard nothing
+    # else may be returned (an error there would be answered with an unsolicited error frame)
+    noreply, acks0 = [], []
+    for a in arms:
+        ks = [names[t] for t in a["types"] if t in names] or [-1]
+        for e in a["events"]:
+            if e["kind"] != "ret":
+                continue
+            cls = {"nilnil": 0, "nilerr": 1, "value": 2}[e["call"]]
+            for k in ks:
+                if cls == 0:
+                    noreply.append((k, 1 if e.get("acks0") else 0))
+                if e.get("acks0"):
+                    acks0.append((k, cls))
+    ck._c11.update(rows=rows, names=names, served=served, guards=guards, noreply=noreply, acks0=acks0)
 
     def lst(xs):
         return "[" + ", ".join("(" + ", ".join(str(v) for v in x) + ")" for x in xs) + "]"
@@ -121,7 +150,12 @@ def generate(ck):
            "def kmsgTab : List (Int × Int × Int × Int) := %s\n"
            "def handlerGuards : List (Int × Int × Int) := %s\n"
            "def servedKeys : List Int := [%s]\n"
-           "end KafVerif.Gen.C11\n") % (lst(rows["broker"]), lst(rows["proxy"]), lst(rows["kmsg"]), lst(guards), ", ".join(map(str, served)))
+           "/-- every `return nil, nil` reachable from an arm of Handle: (key of the arm, 1 iff lexically inside `if req.Acks == 0`) -/\n"
+           "def noReplyReturns : List (Int × Int) := %s\n"
+           "/-- every two-result return lexically inside `if req.Acks == 0 { }`: (key of the arm, 0 nil,nil / 1 nil,err / 2 payload) -/\n"
+           "def acks0Returns : List (Int × Int) := %s\n"
+           "end KafVerif.Gen.C11\n") % (lst(rows["broker"]), lst(rows["proxy"]), lst(rows["kmsg"]), lst(guards), ", ".join(map(str, served)),
+                                         lst(noreply), lst(acks0))
     old = open(GEN).read() if os.path.exists(GEN) else None
     if old != src:
         os.makedirs(os.path.dirname(GEN), exist_ok=True)
@@ -150,7 +184,9 @@ def run(ck):
     ck.cov["rule"] = ("exhaustive over every advertised (key, version) of broker and proxy plus the two adjacent unadvertised versions "
                       "per key, x generated request bodies (reflective fill of the kmsg struct from VERIF_SEED); broker: ParseRequest -> "
                       "handler.Handle (-> buildErrorResponse on error); proxy: real handleConnection over net.Pipe, not-ready and "
-                      "no-backend situations.  Non-trivial = every op (each is a distinct (key, version, body)); distinct = distinct op lines")
+                      "no-backend situations; pipelined: one request per advertised (key, version) interleaved with acks=0 produces (valid / bad batch / "
+                      "invalid topic / foreign partition / ACL-denied / mixed / generated / empty; handler default, ACL on, S3 unavailable) on one real "
+                      "connection loop, k-th reply = k-th reply-expecting request.  Non-trivial = every op (each is a distinct (key, version, body)); distinct = distinct op lines")
     ck.cov["exhaustive"] = True
     ck.partial = ("theorems cover the regenerated tables and the response-header rule; that every response BODY decodes at the "
                   "request version is validated exhaustively over (key, version) with generated bodies, not proved (kmsg is the codec)")
@@ -185,23 +221,23 @@ def run(ck):
     _judge(ck, "broker", [bops[i] for i in keep], [bmeta[i] for i in keep], [bimpl[i] for i in keep], bmodel)
     # ---------------- SkipResponseHeader (the proxy's reading of a reply header) against the model and the header rule
     run_srh(ck, bins, rows)
-    # ---------------- broker, pipelined: every advertised (key, version) back to back on ONE real connection loop
-    for mode in [0, 1, 2 + ck.rng.below(1 << 30)] + ([] if ck.quick() else [2 + ck.rng.below(1 << 30) for _ in range(6)]):
+    # ---------------- broker, pipelined: every advertised (key, version) back to back on ONE real connection loop, interleaved with
+    # fire-and-forget (acks=0) produces of every kind (valid, bad batch, invalid topic, foreign partition, ACL-denied, mixed, generated,
+    # empty) which must get NO reply: the k-th reply must belong to the k-th reply-expecting request.  cfg 0 default handler, 1 ACL on
+    # (one topic denied), 2 S3 unavailable.
+    if not st.get("acks0"):
+        ck.notes.append("source facts: no `if req.Acks == 0` guard found in the Produce arm (the acks0 obligations are vacuous; the pipelined run is the tie)")
+    for cfg in (0, 1, 2):
+        rc, out, err = ck.run_bin(bins["b"], args=["acks0probe", str(cfg)], env={"VERIF_HARNESS": "C11"}, timeout=60)
+        for w in out.split()[1:]:
+            name, frac = w.split("=")
+            ck.count("acks0-generator:cfg%d:%s:%s" % (cfg, name, "rejected" if not frac.startswith(("0/", "-1/")) else "accepted"))
+    chunk = lambda: 2 + ck.rng.below(1 << 30)
+    plan = [(0, 0), (1, 1), (chunk(), 2)] if ck.quick() else [(m, c) for c in (0, 1, 2) for m in (0, 1, chunk(), chunk())]
+    for mode, cfg in plan:
         pseed = ck.rng.next() % (1 << 62)
-        rc, out, err = ck.run_bin(bins["b"], args=["pipe", str(pseed), str(mode)], env={"VERIF_HARNESS": "C11"}, timeout=180)
-        line = (out.strip().split("\n") or [""])[-1]
-        pop = "pipe %d %d" % (pseed, mode)
-        ck.count("broker-pipe:" + " ".join(line.split()[:3]))
-        if line.startswith("pipe ok"):
-            ck.cov["evaluations"] += int(line.split("replies=")[1].split()[0])
-            ck.case(pop, sample={"op": pop, "impl": line})
-        elif line.startswith("pipe mismatch"):
-            ck.violation("pipelined-request-" + line.split()[2],
-                         "requests for every advertised (key, version) written back to back on one connection (%s): %s" % (
-                             {0: "a single write", 1: "one write per frame"}.get(mode, "chunks ignoring frame boundaries"), line[14:]),
-                         {"ops": [pop], "who": "broker-pipe", "actual": line})
-        else:
-            ck.violation("handler-panic", "the pipelined broker scenario died: " + (err[-300:] or line), {"ops": [pop], "who": "broker-pipe", "actual": line})
+        pop = "pipe %d %d %d" % (pseed, mode, cfg)
+        _pipe(ck, bins, pop)
     # ---------------- broker, concurrent: one shared handler, GOMAXPROCS goroutines, same API key at mixed versions
     cseed, cms = ck.rng.next() % (1 << 62), (1500 if ck.quick() else 10000)
     rc, out, err = ck.run_bin(bins["b"], args=["conc", str(cseed), str(cms)], env={"VERIF_HARNESS": "C11"}, timeout=180)
@@ -233,6 +269,43 @@ def run(ck):
     open(mfn, "w").write("\n".join(mops) + "\n")
     pmodel = ck.lean_run("C11", mfn)
     _judge(ck, "proxy", pops, pmeta, pimpl, pmodel)
+
+
+def _pipe(ck, bins, pop, replaying=False):
+    """One pipelined connection (`pipe seed mode cfg`); judges the harness line and compares the reply sequence with the model's
+    `serve` (stream theorem reply_stream: replies = filterMap over requests)."""
+    args = pop.split()
+    rc, out, err = ck.run_bin(bins["b"], args=args, env={"VERIF_HARNESS": "C11"}, timeout=180)
+    line = (out.strip().split("\n") or [""])[-1]
+    mode, cfg = int(args[2]), int(args[3]) if len(args) > 3 else 0
+    if replaying:
+        print("  %s -> %s" % (pop, line[:200]))
+    ck.count("broker-pipe:cfg%d:%s" % (cfg, " ".join(line.split()[:3])))
+    if line.startswith("pipe ok"):
+        ck.cov["evaluations"] += int(line.split("replies=")[1].split()[0])
+        ck.count("broker-pipe:acks0-produces", int(line.split("acks0=")[1].split()[0]))
+        ck.case(pop, sample={"op": pop, "impl": line[:160]})
+        reqs = line.split("reqs=")[1].split()[0]
+        got = line.split("got=")[1].split()[0] if "got=" in line and not line.endswith("got=") else ""
+        fn = ck.path("ops_stream.txt")
+        open(fn, "w").write("stream %s\n" % reqs)
+        model = ck.lean_run("C11", fn)
+        ck.cov["traces_validated_against_impl"] += 1
+        if model != ["replies " + got]:
+            ck.cov["disagreements_checked"] += 1
+            ck.broke("correspondence model/implementation (reply stream of a connection: serve = filterMap over requests)",
+                     "op %s\nreqs : %s\nimpl : replies %s\nmodel: %s" % (pop, reqs[:400], got[:400], (model or [""])[0][:400]))
+        return True
+    where = {0: "a single write", 1: "one write per frame"}.get(mode, "chunks ignoring frame boundaries")
+    hcfg = {0: "default handler", 1: "ACL enabled", 2: "S3 unavailable"}.get(cfg, "cfg %d" % cfg)
+    if line.startswith("pipe mismatch"):
+        ck.violation("pipelined-request-" + line.split()[2],
+                     "requests for every advertised (key, version), interleaved with acks=0 produces (which get no reply), written back to "
+                     "back on one connection (%s, %s): the k-th reply must belong to the k-th reply-expecting request: %s" % (where, hcfg, line[14:]),
+                     {"ops": [pop], "who": "broker-pipe", "actual": line[:400]})
+    else:
+        ck.violation("handler-panic", "the pipelined broker scenario died: " + (err[-300:] or line), {"ops": [pop], "who": "broker-pipe", "actual": line[:400]})
+    return False
 
 
 def _uvarint(v):
@@ -370,13 +443,7 @@ def replay(ck, path):
     who = rep.get("who", "broker")
     ops = rep["ops"]
     if who == "broker-pipe":
-        _, seed, mode = ops[0].split()
-        rc, out, err = ck.run_bin(st["bins"]["b"], args=["pipe", seed, mode], env={"VERIF_HARNESS": "C11"}, timeout=180)
-        line = (out.strip().split("\n") or [""])[-1]
-        print("  %s -> %s" % (ops[0], line))
-        ck.case(ops[0], sample={"op": ops[0], "impl": line})
-        if not line.startswith("pipe ok"):
-            ck.violation(rep.get("fingerprint", "pipelined-request-no-reply"), rep.get("what", line), {"ops": ops, "who": who, "actual": line})
+        _pipe(ck, st["bins"], ops[0], replaying=True)
         ck.cov["distinct_nontrivial"] = max(ck.cov["distinct_nontrivial"], 2)
         return
     if who == "broker-conc":
